@@ -94,12 +94,52 @@ Theorem C02_code_open : forall fuel s h m h1 h2 b0 rest,
   (closed h = false -> s_closed (strm s) = false /\ s_wr (strm s) = match md h with MA => true | MR => false end) ->
   (closed h = false -> eof h <> None) ->
   (forall k, last h = Some k -> lookup (toc h) k <> None) ->
-  lookup_env (locals s) "mode" = Some (VStr (mode_str m)) ->
+  (lookup_env (locals s) "mode" = Some (VStr (mode_str m)) \/
+   (lookup_env (locals s) "mode" = Some VNone /\ lookup_env (attrs s) "mode" = Some (VStr (mode_str m)))) ->
   let '(s', o) := exec fuel open_prog s in
   let '(f', h') := open_ (file s) h m in
   file s' = f' /\ (o = ONormal \/ o = OReturn VNone) /\ Rep s' h'.
 Proof. exact open_code. Qed.
 Print Assumptions C02_code_open.
+
+(* ---- the other spellings: h[k], h[k] = v, `with h:` ---- *)
+Theorem C02_code_getitem : forall fuel s h k,
+  Rep s h -> lookup_env (locals s) "key" = Some (VBytes k) ->
+  let '(s', o) := exec fuel getitem_prog s in
+  file s' = file s /\ attrs s' = attrs s /\ s_wr (strm s') = s_wr (strm s) /\ s_closed (strm s') = s_closed (strm s) /\
+  o = out_of_res (get (file s) h k).
+Proof. exact getitem_code. Qed.
+Print Assumptions C02_code_getitem.
+
+Theorem C02_code_setitem : forall fuel s h k v,
+  Rep s h -> lookup_env (locals s) "key" = Some (VBytes k) -> lookup_env (locals s) "val" = Some (VBytes v) ->
+  let '(s', o) := exec fuel setitem_prog s in
+  let '(f', h', r) := put (file s) h k v in
+  file s' = f' /\ Rep s' h' /\ o = out_of_res r.
+Proof. exact setitem_code. Qed.
+Print Assumptions C02_code_setitem.
+
+Theorem C02_code_exit : forall fuel s h,
+  Rep s h -> (lookup_env (attrs s) "mode" = Some (VStr "r") \/ lookup_env (attrs s) "mode" = Some (VStr "a")) ->
+  let '(s', o) := exec fuel exit_prog s in
+  file s' = file s /\ Rep s' (close_ h) /\ o = ONormal.
+Proof. exact exit_code. Qed.
+Print Assumptions C02_code_exit.
+
+Theorem C02_code_enter : forall fuel s h m h1 h2 b0 rest,
+  (List.length (file s) < fuel)%nat ->
+  file s = (mk_header h1 h2 b0 ++ rest)%list -> List.length h1 = 16%nat -> len h2 < 65536 -> len b0 < 4294967296 ->
+  lookup_env (attrs s) "_toc" = Some (VToc (toc h)) -> lookup_env (attrs s) "_last" = Some (vopt_bytes (last h)) ->
+  lookup_env (attrs s) "_eof" = Some (vopt_int (eof h)) -> lookup_env (attrs s) "_closed" = Some (VBool (closed h)) ->
+  (closed h = false -> s_closed (strm s) = false /\ s_wr (strm s) = match md h with MA => true | MR => false end) ->
+  (closed h = false -> eof h <> None) ->
+  (forall k, last h = Some k -> lookup (toc h) k <> None) ->
+  lookup_env (attrs s) "mode" = Some (VStr (mode_str m)) ->
+  let '(s', o) := exec fuel enter_prog s in
+  let '(f', h') := open_ (file s) h m in
+  file s' = f' /\ o = OReturn VSelf /\ Rep s' h'.
+Proof. exact enter_code. Qed.
+Print Assumptions C02_code_enter.
 
 (* ---- the effects of the code on the file, and the crash model of C03 ----
    [effects] lists, in program order, every write (with its position) and truncate a run performs; replaying them
